@@ -104,7 +104,11 @@ META = {
              "`compactForm_ignores`, and `converges_modelled_compact` (a caught-up compact replica holds compactForm of the "
              "upstream's latest version, for every schedule); for every generated metric content the fields of the real compact event "
              "are compared with the model's (`cf` lines), and an independent Go reference drives the oracle "
-             "replica-compact-form-differs on synced replicas behind compact journals; (7) `two_hop_compact_rollback_counterexample`: for a "
+             "replica-compact-form-differs on synced replicas behind compact journals; (6d) `two_hop_converges_compact_no_rollback`: source -> aggregator of "
+             "either kind (compact included) -> agent of either kind, every schedule with restarts of the AGENT from old/truncated "
+             "files but no restart of the aggregator: when the aggregator has caught up with the source and the agent with the "
+             "aggregator, the agent holds exactly the source's non-discarded entities in doubly stored form; (7) "
+             "`two_hop_compact_rollback_counterexample`: for a "
              "COMPACT aggregator the statement is false of the code (decide witness, replayed on the real chain). The model is "
              "tied to the code by replaying each generated history op by op on real JournalFast/MetricsStorage objects and on the "
              "compiled Lean model and diffing versions, hashes, journal order and all index maps; the hypotheses of (1) about the "
@@ -123,9 +127,13 @@ META = {
              "returned event (not the source's current version) and the long poll never returns empty, so the journal cannot tell "
              "when its catch-up after a restart is over and the skip is safe again; a repair needs a protocol change (agent "
              "detects an upstream behind itself and resyncs, or the skip records the version range it covers). Partial: two-hop "
-             "convergence with aggregator rollbacks is proved only for skip-free chains; for a compact aggregator that is never "
-             "rolled back two hops follow from `converges` applied to each hop; a compact aggregator with rollbacks under a "
-             "'compact form never returns to an earlier value' hypothesis is not proved. A compact replica may keep an older "
+             "convergence with aggregator rollbacks is proved only for skip-free chains; a compact aggregator that is never "
+             "rolled back is `two_hop_converges_compact_no_rollback`. STILL MISSING: `two_hop_converges_compact_no_return` — a compact "
+             "aggregator WITH roll-backs under the hypothesis that an entity's compact form never returns to an earlier value "
+             "(excludes exactly the known finding's A->B->A shape); its statement is kept as a comment in Props/C20 section N; it needs "
+             "a run-compressed invariant relative to the source (one stored entry stands for a range of source versions with "
+             "identical stored form) preserved by the skip, by aggregator restarts and by deliveries to an agent ahead of the "
+             "aggregator; not attempted in the last time box. A compact replica may keep an older "
              "version number for an entity whose compact form did not change (content equality, not version equality, is proved "
              "for compact journals). Earlier defect (fixed in /repo as ebafde2e, fixes/C20-name-index.diff): ApplyEvent deleted the "
              "old name unconditionally on rename and rebuilt the metric name index from the id index in map order."),
